@@ -610,3 +610,39 @@ V('reg-c17-raw-level-field', 'C17', 'hl7apy/core.py', "        SupportComplexDat
 V('c18-validate-ignores-reference', 'C18', 'hl7apy/core.py', "reference=getattr(self, 'reference', None), report_file=report_file,", "report_file=report_file,", rule='C18-V')
 V('c18-keyerror-unmapped', 'C18', 'hl7apy/parser.py', "    except KeyError:\n        raise MessageProfileNotFound()\n\n    try:\n        m = Message(", "    except KeyError:\n        reference = None\n\n    try:\n        m = Message(", rule='C18-S')
 V('c15-raise-keyerror', 'C15', 'hl7apy/parser.py', "    except KeyError:\n        raise MessageProfileNotFound()\n\n    try:\n        m = Message(", "    except KeyError:\n        raise KeyError(message_structure)\n\n    try:\n        m = Message(", rule='C15-T')
+
+# ---------------------------------------------------------------- benign twins (behaviour-preserving refactors): must stay silent
+V('twin-mllp-rename-accumulator', 'C16', 'hl7apy/mllp.py', None, None, expect='clean',
+  edits=[('hl7apy/mllp.py', "            line = self.request.recv(3)", "            buf = self.request.recv(3)"),
+         ('hl7apy/mllp.py', "        if line[:1] != self.sb:  # First MLLP char", "        if buf[:1] != self.sb:  # First MLLP char"),
+         ('hl7apy/mllp.py', "        while line[-2:] != end_seq:", "        while buf[-2:] != end_seq:"),
+         ('hl7apy/mllp.py', "                line += char", "                buf += char"),
+         ('hl7apy/mllp.py', "        message = self._extract_hl7_message(line.decode(self.encoding))", "        message = self._extract_hl7_message(buf.decode(self.encoding))")])
+V('twin-parser-percent-name', 'C02', 'hl7apy/parser.py', '            subcomponent_name = "{0}_{1}".format(component_datatype, index + 1)',
+  '            subcomponent_name = "{0}_{1}".format(component_datatype, 1 + index)', expect='clean')
+V('twin-segment-add-split', 'C02', 'hl7apy/core.py', "            field_index = int(obj.name[4:])\n            if field_index > self._last_child_index:\n                self._last_child_index = field_index",
+  "            field_index = int(obj.name[4:])\n            self._last_child_index = max(self._last_child_index, field_index)", expect='clean')
+V('twin-getter-truncation-item', 'C07', 'hl7apy/core.py', "            chars.update({'TRUNCATION': msh_2[4]})", "            chars['TRUNCATION'] = msh_2[4]", expect='clean')
+V('twin-can-add-reorder-checks', 'C10', 'hl7apy/core.py',
+  "                if self.element.validation_level != child.validation_level:\n                    raise OperationNotAllowed('Cannot add a child with a different validation_level')\n                if self.element.version != child.version:\n                    raise OperationNotAllowed('Cannot add a child with a different HL7 version')",
+  "                if self.element.version != child.version:\n                    raise OperationNotAllowed('Cannot add a child with a different HL7 version')\n                if self.element.validation_level != child.validation_level:\n                    raise OperationNotAllowed('Cannot add a child with a different validation_level')",
+  expect='clean')
+V('twin-validator-rename-lists', 'C04', 'hl7apy/validation.py', None, None, expect='clean',
+  edits=[('hl7apy/validation.py', "        errors = []\n        warnings = []\n\n        _is_valid(element, reference, errors, warnings)", "        found = []\n        notes = []\n\n        _is_valid(element, reference, found, notes)"),
+         ('hl7apy/validation.py', "                    for e in errors:\n                        f.write(\"Error: {}\\n\".format(e))\n                    for w in warnings:", "                    for e in found:\n                        f.write(\"Error: {}\\n\".format(e))\n                    for w in notes:"),
+         ('hl7apy/validation.py', "                for e in errors:\n                    write(\"Error: {}\\n\".format(e))\n                for w in warnings:", "                for e in found:\n                    write(\"Error: {}\\n\".format(e))\n                for w in notes:"),
+         ('hl7apy/validation.py', "                is_valid=not errors,\n                errors=errors,\n                warnings=warnings)\n\n        if errors:\n            raise errors[0]", "                is_valid=not found,\n                errors=found,\n                warnings=notes)\n\n        if found:\n            raise found[0]")])
+V('twin-set-not-child', 'C09', 'hl7apy/core.py', "        if child_to_remove is None:\n            self.append(child)", "        if not child_to_remove:\n            self.append(child)", expect='clean')
+V('twin-parse-fields-msh2-tuple', 'C01', 'hl7apy/parser.py', "            if name == 'MSH_2':", "            if name in ('MSH_2',):", expect='clean')
+V('twin-escape-loop-vars', 'C06', 'hl7apy/base_datatypes.py', "        for char, esc_seq in translations:\n            value = value.replace(char, esc_seq)",
+  "        for delimiter, sequence in translations:\n            value = value.replace(delimiter, sequence)", expect='clean')
+V('twin-remove-trailing-loop', 'C02', 'hl7apy/core.py', "    trailing = list(takewhile(lambda x: not x, reversed(children)))\n    if len(trailing) > 0:\n        children = children[:-len(trailing)]\n    return children",
+  "    while children and not children[-1]:\n        children = children[:-1]\n    return children", expect='clean')
+V('twin-create-element-ifelse-swapped', 'C11', 'hl7apy/core.py',
+  "            if not traversal_parent:\n                kwargs['parent'] = self.element\n            else:\n                kwargs['traversal_parent'] = self.element",
+  "            if traversal_parent:\n                kwargs['traversal_parent'] = self.element\n            else:\n                kwargs['parent'] = self.element", expect='clean')
+V('twin-split-msh-version-var', 'C07', 'hl7apy/parser.py', "            elif len(seps) == N_SEPS_27 and len(fields) > 11 and fields[11] >= '2.7':",
+  "            elif len(fields) > 11 and len(seps) == N_SEPS_27 and fields[11] >= '2.7':", expect='clean')
+V('twin-find-child-reference-early-return', 'C14', 'hl7apy/core.py',
+  "            element = find_reference(name, self.child_classes.values(), self.version)\n            if element is None:\n                raise ChildNotFound(name)\n            # it means",
+  "            element = find_reference(name, self.child_classes.values(), self.version)\n            # it means", expect='clean')
